@@ -581,11 +581,14 @@ def _unit_checks(ctx, label, unit, raw):
 
 
 def _regular(ctx, vec):
-    """precondition of normalisation: the vector is not the zero vector.  Stated as |vec|^2 > 0 (the same thing for a
-    sum of squares) in division-free form, which is also what settles the domain test of math.sqrt on this path."""
+    """precondition of normalisation: the vector is not the zero vector, |vec|^2 != 0.
+    Given to the solver in division-free form together with the fact |vec|^2 >= 0 (a sum of squares of reals, A1) in
+    exactly the shape of the domain test that math.sqrt makes on this path, so that test is settled by the asserted
+    fact instead of a nonlinear search."""
     ss = _dot(vec, vec)
     if ctx.mode == 'sym':
-        ctx.assume(ctx.sign_free_lt(0, ss))
+        ctx.assume(ctx.sign_free_le(0, ss))                 # sum of squares
+        ctx.assume(ctx.not_(ctx.sign_free_le(ss, 0)))       # regular point
     else:
         ctx.assume(ss > 0)
 
